@@ -40,4 +40,5 @@ CONF = dict(
     explanation=('oracle clauses: no decoder call ends in a panic or fails to return; the process that runs the listeners/clients stays alive; every well-formed sentinel sent '
                  'after crafted input on the same socket is answered; after crafted responses an honest exchange of the same client succeeds'),
     timeout_quick=1800, timeout_thorough=5400,
+    min_cases={'cli.csptp': 41, 'cli.ip': 12, 'cli.nts': 19, 'cli.scion': 66, 'cmsg': 743, 'cookie.decrypt': 58, 'cookie.enc': 114, 'cookie.srv': 100, 'csptp.msg': 30, 'csptp.req': 139, 'csptp.resp': 139, 'ntp.dec': 63, 'nts.auth': 326, 'nts.clireq': 45, 'nts.dec': 1035, 'nts.enc': 90, 'nts.resp': 17, 'nts.srvreply': 226, 'ntske.read': 162, 'scion.authopt': 19, 'srv.csptp': 206, 'srv.ip': 29, 'srv.kestall': 7, 'srv.ntske': 18, 'srv.quic': 5, 'srv.scion': 38},
 )
